@@ -46,6 +46,8 @@ def sibling_project(project, syntax, section, rng_style):
             style["preamble"] = "[metadata]\nname = demo\n"
     if section == "pycalver":
         style["section"] = "pycalver"
+    if p.get("no_files"):
+        style["omit_empty_table"] = True
     p["style"] = style
     p["cfg_regime"] = rng_style.choice(["lf", "lf", "crlf"])
     return p
@@ -68,6 +70,13 @@ class Siblings:
         project = layouts.gen_project(rng, mode="plain", syntaxes=["setup.cfg"], allow_mixed=False, vcs="maybe",
                                       allow_odd_paths=False, legacy=leg, max_files=5)
         cfg = project["cfg"]
+        if rng.random() < 0.12:
+            # no files besides the config file itself (the quantifier's "0 files"): no file_patterns section at all
+            project["files"] = []
+            cfg["file_patterns"] = []
+            project["cfg_glob"] = None
+            project["extra"] = {}
+            project["no_files"] = True
         # settings space incl. invalid combinations and missing optional keys
         for k in ("commit", "tag", "push"):
             r = rng.random()
